@@ -303,3 +303,15 @@ Example C08_nonvacuous_deleted_secret :
   secret_state d TyTLS "default/tls" = SMissing /\
   vs_ssl_config (Some "tls") "default" d false (fun k => k) = Some (mkSsl true "").
 Proof. split; vm_compute; reflexivity. Qed.
+
+(* a WAF policy with three securityLogs entries: ONE unusable APLogConf, at any position, fails the scope
+   (the usable entries around it do not forgive it) *)
+Example C08_waf_every_security_log_counts :
+  let d := mkDeps [] ["default/ap"] ["default/lc0"; "default/lc2"] [] true in
+  let pm := fun logs => [("default/waf", mkPolicy KWaf "" "" false "ap" "" logs [] "" false)] in
+  let sc := mkScope CRoute "default" None in
+  generate_policies [("", "waf")] (pm ["lc0"; "lc2"; "lc0"]) d sc <> ErrorReturn /\
+  generate_policies [("", "waf")] (pm ["lc1"; "lc0"; "lc2"]) d sc = ErrorReturn /\
+  generate_policies [("", "waf")] (pm ["lc0"; "lc1"; "lc2"]) d sc = ErrorReturn /\
+  generate_policies [("", "waf")] (pm ["lc0"; "lc2"; "lc1"]) d sc = ErrorReturn.
+Proof. repeat split; try (vm_compute; reflexivity). vm_compute. discriminate. Qed.
